@@ -82,6 +82,9 @@ pub fn sigma2_for(env: &Env, ids: &Ids) -> Vec<(String, Sx)> {
         add(&format!("op{op}"), cond(op, &[pk.clone(), Sx::atom(b"m")]));
     }
     add("op1", cond(1, &[Sx::atom(b"x")]));
+    // REMARK without an argument and with a pair as first argument (any shape is legal)
+    add("op1", cond(1, &[]));
+    add("op1", cond(1, &[Sx::list(&[Sx::atom(b"a"), Sx::atom(b"b")])]));
     add("op90", cond(90, &[Sx::int(1)]));
     add("opx02", Sx::list(&[Sx::atom(&[2]), Sx::atom(b"x")]));
     add("opx0100", Sx::list(&[Sx::atom(&[1, 0]), Sx::atom(b"x")]));
